@@ -61,12 +61,19 @@ def methodName (ev : Ev) : Str := ['o', 'n', '_'] ++ ev
     catch-all KEY `'*'` is never matched as an event name) -/
 def Reg.exact (r : Reg) (n : Ns) (ev : Ev) : Bool := ev != star && r.fn n ev
 
+/-- the three exact-NAMESPACE presence bits: `namespace != '*' and namespace in …` -/
+def Reg.nsExact (r : Reg) (ns : Ns) (ev : Ev) : Bool := ns != star && r.exact ns ev
+def Reg.nsCatch (r : Reg) (ns : Ns) : Bool := ns != star && r.fn ns star
+def Reg.nsCls (r : Reg) (ns : Ns) : Bool := ns != star && r.cls ns
+
 def Reg.hasMethod (r : Reg) (ns : Ns) (ev : Ev) : Bool := r.attr ns (methodName ev)
 
-/-- The part of `_get_event_handler` under `if namespace in self.handlers:`
+/-- The part of `_get_event_handler` under `if namespace != '*' and namespace in self.handlers:`
+    (since /repo 74a0887 the catch-all KEY `'*'` is never matched as a namespace name)
     (`if event != '*' and event in self.handlers[namespace]: … elif …`) -/
 def eventHandlerNs (reserved : List Ev) (r : Reg) (ns : Ns) (ev : Ev) : Option (Slot × List PArg) :=
-  if r.exact ns ev then some (.fnNsEv, [])                    -- handler = handlers[ns][ev]
+  if ns == star then none                                     -- `namespace != '*' and namespace in …`
+  else if r.exact ns ev then some (.fnNsEv, [])               -- handler = handlers[ns][ev]
   else if !reserved.contains ev && r.fn ns star then
     some (.fnNsStar, [.ev])                                   -- args = (event, *args)
   else none
@@ -84,16 +91,17 @@ def getEventHandler (reserved : List Ev) (r : Reg) (ns : Ns) (ev : Ev) : Option 
   | some h => some h
   | none => eventHandlerStar reserved r ns ev
 
-/-- `BaseServer._get_namespace_handler`: `if ns in nh: …` then `if handler is None and '*' in nh: …` -/
+/-- `BaseServer._get_namespace_handler`: `if ns != '*' and ns in nh: …` then `if handler is None and '*' in nh: …` -/
 def getNamespaceHandlerS (r : Reg) (ns : Ns) : Option (Slot × Ns × List PArg) :=
-  let h : Option (Slot × Ns × List PArg) := if r.cls ns then some (.clsNs, ns, []) else none
+  let h : Option (Slot × Ns × List PArg) :=
+    if ns != star && r.cls ns then some (.clsNs, ns, []) else none
   match h with
   | some x => some x
   | none => if r.cls star then some (.clsStar, star, [.ns]) else none
 
-/-- `BaseClient._get_namespace_handler`: `if ns in nh: …  elif '*' in nh: …` -/
+/-- `BaseClient._get_namespace_handler`: `if ns != '*' and ns in nh: …  elif '*' in nh: …` -/
 def getNamespaceHandlerC (r : Reg) (ns : Ns) : Option (Slot × Ns × List PArg) :=
-  if r.cls ns then some (.clsNs, ns, [])
+  if ns != star && r.cls ns then some (.clsNs, ns, [])
   else if r.cls star then some (.clsStar, star, [.ns])
   else none
 
@@ -151,8 +159,9 @@ def PArg.render (ns : Ns) (ev : Ev) : PArg → Str
 
 /-- The documented precedence table of the property statement, written independently of the
     transcription above: first match over the six presence bits (plus "the selected class has the
-    method").  `res` = the event is reserved; `b1`, `b3` are the EXACT-name bits (`Reg.exact`: false for
-    an event literally named `"*"`), `b2`, `b4` the catch-all-event bits. -/
+    method").  `res` = the event is reserved; `b1`, `b3` are the EXACT-event-name bits (`Reg.exact`: false
+    for an event literally named `"*"`), `b2`, `b4` the catch-all-event bits; `b1`, `b2`, `b5` are the
+    EXACT-namespace bits (`Reg.nsExact/nsCatch/nsCls`: false for a namespace literally named `"*"`). -/
 def table (res b1 b2 b3 b4 b5 b6 m5 m6 : Bool) : Res :=
   match b1, b2 && !res, b3, b4 && !res, b5, b6 with
   | true, _, _, _, _, _ => .invoke .fnNsEv []
